@@ -216,6 +216,49 @@ func RunCLI(bin, cwd, stdin string, extraEnv []string, args ...string) CLIResult
 	return res
 }
 
+// RunCLIChunked is RunCLI with standard input delivered through a pipe in several writes with a pause between them.
+func RunCLIChunked(bin, cwd string, chunks []string, pause time.Duration, extraEnv []string, args ...string) CLIResult {
+	ctx, cancel := context.WithTimeout(context.Background(), 60*time.Second)
+	defer cancel()
+	cmd := exec.CommandContext(ctx, bin, args...)
+	cmd.Dir = cwd
+	cmd.Env = append([]string{"CI=true", "HOME=" + cwd, "TMPDIR=" + os.TempDir(), "PATH=/usr/bin:/bin", "NO_COLOR=1"}, extraEnv...)
+	in, err := cmd.StdinPipe()
+	if err != nil {
+		panic(err)
+	}
+	var so, se bytes.Buffer
+	cmd.Stdout, cmd.Stderr = &so, &se
+	if err := cmd.Start(); err != nil {
+		return CLIResult{Exit: -2, Stderr: err.Error()}
+	}
+	go func() {
+		for i, c := range chunks {
+			if i > 0 {
+				time.Sleep(pause)
+			}
+			if _, err := in.Write([]byte(c)); err != nil {
+				break
+			}
+		}
+		in.Close()
+	}()
+	err = cmd.Wait()
+	res := CLIResult{Stdout: so.String(), Stderr: se.String()}
+	if ctx.Err() != nil {
+		res.TimedOut, res.Exit = true, -1
+		return res
+	}
+	if err != nil {
+		if ee, ok := err.(*exec.ExitError); ok {
+			res.Exit = ee.ExitCode()
+		} else {
+			res.Exit = -2
+		}
+	}
+	return res
+}
+
 // ShellQuote for replay command lines.
 func ShellQuote(s string) string {
 	if s != "" && strings.IndexFunc(s, func(r rune) bool {
